@@ -5,7 +5,7 @@ from .. import rt, framework as fw
 from . import _scn
 
 NOTICE = "Please update to the latest ascmhl version using `pip3 install -U ascmhl`."
-BEHAVIOURS = ["newer", "older", "same", "pre", "dev", "garbage", "notag", "list", "nojson", "http404", "http500", "connerr", "timeout", "oserror", "slow", "late", "hang", "garbage_slow", "notag_slow"]
+BEHAVIOURS = ["newer", "older", "same", "pre", "dev", "garbage", "notag", "list", "nojson", "http404", "http500", "connerr", "timeout", "oserror", "slow", "late", "hang", "garbage_slow", "notag_slow", "longtag", "hugetag", "srv:ok", "srv:stall_headers", "srv:stall_body", "srv:stall_midbody", "srv:close_midbody", "srv:trickle"]
 PY = "/venv/bin/python"
 
 
@@ -90,7 +90,7 @@ def run(ctx):
                 body = out.replace(NOTICE + "\n", "", 1)
             if body != ref["stdout"] or n_notice > 1 or (n_notice == 1 and not out.endswith(NOTICE + "\n")):
                 fails.append({"what": f"{desc}: standard output differs from the command's own output (apart from one trailing notice): {out[-200:]!r} vs {ref['stdout'][-200:]!r}", "replay": rp})
-            if n_notice and (b not in ("newer", "slow") or ref["exit"] != 0):
+            if n_notice and (b not in ("newer", "slow", "srv:ok") or ref["exit"] != 0):
                 fails.append({"what": f"{desc}: update notice printed although no strictly newer final release was reported / the command failed", "replay": rp})
             if res["dt"] > ref["dt"] + 1.0 + 0.8 or res["wall"] > ref["wall"] + 1.0 + 2.0:
                 fails.append({"what": f"{desc}: took {res['dt']:.2f}s in-command / {res['wall']:.2f}s wall, the command alone {ref['dt']:.2f}s / {ref['wall']:.2f}s: delayed by more than the one second join", "replay": rp})
@@ -99,7 +99,7 @@ def run(ctx):
     finally:
         shutil.rmtree(base, ignore_errors=True)
     cov = {"evaluations": evals, "distinct_nontrivial": evals,
-           "rule": "one evaluation = one (server behaviour, CLI group, command, world) run in a FRESH interpreter with requests.get stubbed before the import that starts the checker thread; compared with the same command run without the checker: exit code, stdout minus one trailing notice, duration <= +1 s (+ scheduling slack); 19 behaviours x 8 command/world combinations (two of them with -v)",
+           "rule": "one evaluation = one (server behaviour, CLI group, command, world) run in a FRESH interpreter with requests.get stubbed before the import that starts the checker thread; compared with the same command run without the checker: exit code, stdout minus one trailing notice, duration <= +1 s (+ scheduling slack); 27 behaviours (six of them over a real local socket) x 8 command/world combinations (two of them with -v)",
            "samples": samples, "input_distribution": {"behaviours": BEHAVIOURS, "commands": ["info(0)", "diff(10)", "info(30)", "verify(0)", "verify(11)", "hash(0)", "info -v(0)", "verify -v(0)"]},
            "monitor": {"cases": evals, "failing": len(fails)}, "exhaustive": False}
     return fw.finish(ctx, cov, fails, [], assumptions=["CPython's scheduler and click's callback plumbing are exercised, not modelled", "timing slack 0.8 s in-process / 2.0 s process wall on top of the 1 s join"])
